@@ -57,11 +57,21 @@ type sinkRWC struct {
 	wrote  []byte
 	in     *byteQueue
 	closed bool
+	// watch, when set, runs inside every transport write: the caller's buffer must be intact not only after the
+	// library call returned but also while the transport is being written to (another goroutine may be reading
+	// or sending the same slice)
+	watch func()
 }
 
 func newSink() *sinkRWC                       { return &sinkRWC{in: newByteQueue()} }
 func (s *sinkRWC) Read(p []byte) (int, error) { return s.in.Read(p) }
 func (s *sinkRWC) Write(p []byte) (int, error) {
+	s.mu.Lock()
+	w := s.watch
+	s.mu.Unlock()
+	if w != nil {
+		w()
+	}
 	s.mu.Lock()
 	defer s.mu.Unlock()
 	if s.closed {
@@ -69,6 +79,11 @@ func (s *sinkRWC) Write(p []byte) (int, error) {
 	}
 	s.wrote = append(s.wrote, p...)
 	return len(p), nil
+}
+func (s *sinkRWC) setWatch(f func()) {
+	s.mu.Lock()
+	s.watch = f
+	s.mu.Unlock()
 }
 func (s *sinkRWC) releaseEOF() { s.in.CloseWith(nil) }
 func (s *sinkRWC) Close() error {
@@ -148,7 +163,13 @@ func runWriteCase(c *WriteCase) *writeObs {
 			case "write":
 				p := unhx(op.Chunks[0])
 				keep := append([]byte(nil), p...)
+				sink.setWatch(func() {
+					if !bytes.Equal(p, keep) {
+						o.Mutated = "Write modified the caller's buffer while the transport write was in progress"
+					}
+				})
 				err = conn.Write(ctx, websocket.MessageType(op.Typ), p)
+				sink.setWatch(nil)
 				if !bytes.Equal(p, keep) {
 					o.Mutated = "Write modified the caller's buffer"
 				}
@@ -159,7 +180,13 @@ func runWriteCase(c *WriteCase) *writeObs {
 					for ci, ch := range op.Chunks {
 						p := unhx(ch)
 						keep := append([]byte(nil), p...)
+						sink.setWatch(func() {
+							if !bytes.Equal(p, keep) {
+								o.Mutated = "Writer.Write modified the caller's buffer while the transport write was in progress"
+							}
+						})
 						_, err = w.Write(p)
+						sink.setWatch(nil)
 						if !bytes.Equal(p, keep) {
 							o.Mutated = "Writer.Write modified the caller's buffer"
 						}
